@@ -10,7 +10,10 @@ SV=/tmp/sv-$name
 rm -rf $SV; mkdir -p $SV
 git -C /repo worktree add -q --detach $SV/repo HEAD || exit 2
 git -C $SV/repo apply $patch || { echo "patch does not apply"; git -C /repo worktree remove --force $SV/repo; exit 2; }
-rsync -a --exclude .git --exclude work --exclude 'evidence/replays' /verif/ $SV/verif/
+# the copy is taken from a frozen snapshot of /verif if there is one (VERIF_SRC, default
+# /tmp/verif-snap when it exists): /verif itself may be in the middle of a build
+SRC=${VERIF_SRC:-$([ -d /tmp/verif-snap ] && echo /tmp/verif-snap || echo /verif)}
+rsync -a --exclude .git --exclude work --exclude 'evidence/replays' $SRC/ $SV/verif/
 sed -i "s#path = \"/repo\"#path = \"$SV/repo\"#" $SV/verif/harness/Cargo.toml
 props=${@:-C01 C02 C03 C04 C05 C06 C07 C08 C09 C10 C11 C12 C13 C14 C15 C16 C17 C18 C19 C20}
 caught=""
